@@ -32,7 +32,8 @@ theorem bl17Pad.filler {t : Tok} (h : bl17Pad t) : A17Filler t := by
   · exact Or.inl (Or.inl h)
   · exact Or.inr h
 
-/-- `lF` is the leaf `l` with filler inserted behind one of its blanks (or `l` itself) -/
+/-- `lF` is the leaf `l` with filler inserted behind one of its blanks (`ins`), behind several of them or repeatedly
+    (`more`, wave 10), or `l` itself -/
 inductive FillerIn : List Tok → List Tok → Prop
   | same (l : List Tok) : FillerIn l l
   | ins (X : List Tok) (w : Tok) (F Y : List Tok) : X ≠ [] → isSpTok w = true → (∀ t ∈ F, bl17Pad t) →
